@@ -20,6 +20,8 @@ Mutexes(P)  == 1..Len(P.rec)
 Sems(P)     == 1..Len(P.cap)
 Cvs(P)      == 1..P.ncv
 Bars(P)     == 1..Len(P.bar)
+Mboxes(P)   == 1..Len(P.perm)          \* P.perm[b] = permanent receiver of mailbox b (0 = none)
+Mqs(P)      == 1..P.nmq
 OpOf(P, a, k) == P.actors[a][k]
 Cur(P, s, a)  == P.actors[a][s.pc[a]]
 
@@ -44,8 +46,17 @@ S0(P) == [ pc   |-> [a \in Actors(P) |-> 1],
            cq   |-> [c \in Cvs(P) |-> <<>>],           \* FIFO of waiters, records [a, m]
            bq   |-> [b \in Bars(P) |-> <<>>],          \* actors arrived in the current group
            bgen |-> [b \in Bars(P) |-> 0],             \* ghost: number of complete groups released
+           act  |-> <<>>,                              \* activities (communications, messages, executions) by creation order
+           mbq  |-> [b \in Mboxes(P) |-> <<>>],        \* unmatched communications queued in mailbox b (ids, arrival order)
+           mdone |-> [b \in Mboxes(P) |-> <<>>],       \* mailbox with a permanent receiver: sends already started
+           mqq  |-> [q \in Mqs(P) |-> <<>>],           \* unmatched messages queued in message queue q
+           hnd  |-> [a \in Actors(P) |-> <<>>],        \* handles of the asynchronous activities of a, by creation order
+           cur  |-> [a \in Actors(P) |-> 0],           \* activity of the blocking operation in progress
+           sub  |-> [a \in Actors(P) |-> 1],           \* simcall number inside the current operation (put = isend + wait...)
+           rval |-> [a \in Actors(P) |-> 0],           \* value part of the answer (payload id)
            now  |-> 0,
            obs  |-> [a \in Actors(P) |-> <<>>],        \* history: results observed by a
+           ov   |-> [a \in Actors(P) |-> <<>>],        \* history: values observed by a (payload received, 0 otherwise)
            aborted |-> FALSE, abortedBy |-> 0, undef |-> FALSE ]
 
 \* ------------------------------------------------------------------ helpers
@@ -55,6 +66,7 @@ RemoveFirst(seq, x) ==   \* remove the first occurrence of x
   ELSE LET i == CHOOSE j \in idx : \A k \in idx : j <= k IN SubSeq(seq, 1, i - 1) \o SubSeq(seq, i + 1, Len(seq))
 
 Answer(s, a, r) == [s EXCEPT !.ph[a] = "answered", !.res[a] = r, !.tmr[a] = -1, !.blk[a] = NoBlk, !.pres[a] = "none"]
+AnswerV(s, a, r, v) == [Answer(s, a, r) EXCEPT !.rval[a] = v]
 Block(s, a, kind, o, m) == [s EXCEPT !.ph[a] = "blocked", !.blk[a] = [kind |-> kind, o |-> o, m |-> m]]
 Abort(s, a) == [s EXCEPT !.aborted = TRUE, !.abortedBy = a]
 \* behaviour that neither the listed properties nor POSIX define (relocking a non-recursive mutex one already owns):
@@ -84,6 +96,106 @@ CvWakeAll(P, s, c) == IF s.cq[c] = <<>> THEN s ELSE CvWakeAll(P, CvWake(P, s, c)
 
 RECURSIVE AnswerAll(_, _, _)
 AnswerAll(s, seq, r) == IF seq = <<>> THEN s ELSE AnswerAll(Answer(s, Head(seq), r), Tail(seq), r)
+
+\* ------------------------------------------------------------------ activities: communications, messages, executions
+\* kind "comm" | "mess" | "exec"; st "wait" (unmatched) | "run" (matched / started, in flight) | "done" | "canceled";
+\* src / dst = actors (0 = side not there yet); fin = completion date when it is known (timed programs: one dedicated
+\* FATPIPE link, CM02 without latency: a communication lasts exactly its size; an execution lasts exactly its amount on a
+\* host that runs nothing else), -1 when the completion date is left free (shared resources).
+\* rp = the receiving side has been posted by its actor (a send started eagerly towards a permanent receiver is not yet
+\* one of the receiver's activities)
+NewAct(kind, mb, src, dst, pay, sz, st, det, fin) ==
+  [kind |-> kind, mb |-> mb, src |-> src, dst |-> dst, pay |-> pay, sz |-> sz, st |-> st, det |-> det, fin |-> fin,
+   rp |-> (src = 0)]
+PayloadId(s, a) == a * 1000 + s.pc[a]                       \* the driver builds the same identifier
+FinDate(P, s, d) == IF P.timed THEN s.now + d ELSE -1
+FirstIdx(s, q, Test(_)) == LET I == { i \in 1..Len(q) : Test(s.act[q[i]]) } IN
+                           IF I = {} THEN 0 ELSE CHOOSE i \in I : \A j \in I : i <= j
+RemoveAt(q, i) == SubSeq(q, 1, i - 1) \o SubSeq(q, i + 1, Len(q))
+IsRecv(c) == c.src = 0
+IsSend(c) == c.dst = 0
+Waiters(P, s, c) == { a \in Actors(P) : s.ph[a] = "blocked" /\ s.blk[a].kind = "act" /\ s.blk[a].o = c }
+
+\* what the waiter of a finished activity gets: the receiver of a communication / message gets the payload
+\* (blk.m = 1: the actor waits through the receiving side; an actor may send to itself)
+WaitResult(s, a, c) == IF s.act[c].kind \in {"comm", "mess"} /\ s.blk[a].m = 1 THEN s.act[c].pay ELSE 0
+RECURSIVE AnswerWaiters(_, _, _)
+AnswerWaiters(s, as, c) == IF as = {} THEN s
+                           ELSE LET a == CHOOSE x \in as : TRUE IN
+                                AnswerWaiters(AnswerV(s, a, "ok", WaitResult(s, a, c)), as \ {a}, c)
+\* completion of a running activity: every actor blocked on it is answered (CommImpl::finish / ExecImpl::finish)
+Complete(P, s, c) == AnswerWaiters([s EXCEPT !.act[c].st = "done"], Waiters(P, s, c), c)
+
+\* CommImpl::isend on mailbox b: first queued receive in arrival order, else queue (or start at once towards the
+\* permanent receiver).  Returns the new state with s.cur[a] = the communication.
+Isend(P, s, a, b, sz, det) ==
+  LET i == FirstIdx(s, s.mbq[b], IsRecv) IN
+  IF i # 0 THEN LET c == s.mbq[b][i] IN
+       [s EXCEPT !.mbq[b] = RemoveAt(@, i), !.act[c].src = a, !.act[c].pay = PayloadId(s, a), !.act[c].sz = sz,
+                 !.act[c].st = "run", !.act[c].det = det, !.act[c].fin = FinDate(P, s, sz), !.cur[a] = c]
+  ELSE LET c == Len(s.act) + 1 IN
+       IF P.perm[b] # 0
+       THEN [s EXCEPT !.act = Append(@, NewAct("comm", b, a, P.perm[b], PayloadId(s, a), sz, "run", det, FinDate(P, s, sz))),
+                      !.mdone[b] = Append(@, c), !.cur[a] = c]
+       ELSE [s EXCEPT !.act = Append(@, NewAct("comm", b, a, 0, PayloadId(s, a), sz, "wait", det, -1)),
+                      !.mbq[b] = Append(@, c), !.cur[a] = c]
+\* CommImpl::irecv: a mailbox with a permanent receiver serves its started sends first
+Irecv(P, s, a, b) ==
+  LET d == IF P.perm[b] # 0 /\ s.mdone[b] # <<>> THEN 1 ELSE 0
+      i == IF d = 1 THEN 0 ELSE FirstIdx(s, s.mbq[b], IsSend) IN
+  IF d = 1 THEN LET c == Head(s.mdone[b]) IN [s EXCEPT !.mdone[b] = Tail(@), !.act[c].dst = a, !.act[c].rp = TRUE, !.cur[a] = c]
+  ELSE IF i # 0 THEN LET c == s.mbq[b][i] IN
+       [s EXCEPT !.mbq[b] = RemoveAt(@, i), !.act[c].dst = a, !.act[c].rp = TRUE, !.act[c].st = "run",
+                 !.act[c].fin = FinDate(P, s, s.act[c].sz), !.cur[a] = c]
+  ELSE LET c == Len(s.act) + 1 IN
+       [s EXCEPT !.act = Append(@, NewAct("comm", b, 0, a, 0, 0, "wait", FALSE, -1)), !.mbq[b] = Append(@, c), !.cur[a] = c]
+\* MessImpl::iput / iget: a matched message is done at once (no simulated duration)
+Iput(P, s, a, q) ==
+  LET i == FirstIdx(s, s.mqq[q], IsRecv) IN
+  IF i # 0 THEN LET c == s.mqq[q][i] IN
+       Complete(P, [s EXCEPT !.mqq[q] = RemoveAt(@, i), !.act[c].src = a, !.act[c].pay = PayloadId(s, a), !.cur[a] = c], c)
+  ELSE LET c == Len(s.act) + 1 IN
+       [s EXCEPT !.act = Append(@, NewAct("mess", q, a, 0, PayloadId(s, a), 0, "wait", FALSE, -1)), !.mqq[q] = Append(@, c), !.cur[a] = c]
+Iget(P, s, a, q) ==
+  LET i == FirstIdx(s, s.mqq[q], IsSend) IN
+  IF i # 0 THEN LET c == s.mqq[q][i] IN
+       Complete(P, [s EXCEPT !.mqq[q] = RemoveAt(@, i), !.act[c].dst = a, !.act[c].rp = TRUE, !.cur[a] = c], c)
+  ELSE LET c == Len(s.act) + 1 IN
+       [s EXCEPT !.act = Append(@, NewAct("mess", q, 0, a, 0, 0, "wait", FALSE, -1)), !.mqq[q] = Append(@, c), !.cur[a] = c]
+\* ActivityImpl::wait_for on activity c with timeout t (-1 = none)
+WaitAct(P, s, a, c, t, r) ==     \* r: waiting through the receiving side
+  IF s.act[c].st = "done" THEN AnswerV(s, a, "ok", IF r THEN s.act[c].pay ELSE 0)
+  ELSE IF s.act[c].st = "canceled" THEN Answer(s, a, "cancel")
+  ELSE IF s.act[c].st = "failed" THEN Answer(s, a, "network_failure")
+  ELSE Block([s EXCEPT !.tmr[a] = IF t >= 0 THEN s.now + t ELSE -1], a, "act", c, IF r THEN 1 ELSE 0)
+\* An actor that terminates cancels the activities it still takes part in (ActorImpl::cleanup: activities_): an unmatched
+\* one leaves its queue; a communication in flight fails and the actor blocked on its other side gets a network failure.
+Mine(s, a) == { c \in 1..Len(s.act) : /\ s.act[c].st \in {"wait", "run"}
+                                       /\ \/ s.act[c].src = a /\ ~s.act[c].det
+                                          \/ s.act[c].dst = a /\ s.act[c].rp }
+RECURSIVE FailWaiters(_, _, _)
+FailWaiters(s, as, r) == IF as = {} THEN s ELSE LET a == CHOOSE x \in as : TRUE IN FailWaiters(Answer(s, a, r), as \ {a}, r)
+CancelAct(P, s, c) ==
+  LET k == s.act[c] IN
+  IF k.st = "wait"
+  THEN IF k.kind = "comm" THEN [s EXCEPT !.act[c].st = "canceled", !.mbq[k.mb] = RemoveFirst(@, c)]
+       ELSE [s EXCEPT !.act[c].st = "canceled", !.mqq[k.mb] = RemoveFirst(@, c)]
+  ELSE IF k.kind = "comm" THEN FailWaiters([s EXCEPT !.act[c].st = "failed"], Waiters(P, s, c), "network_failure")
+  ELSE [s EXCEPT !.act[c].st = "canceled"]
+RECURSIVE CancelAll(_, _, _)
+CancelAll(P, s, cs) == IF cs = {} THEN s ELSE LET c == CHOOSE x \in cs : TRUE IN CancelAll(P, CancelAct(P, s, c), cs \ {c})
+ExitCleanup(P, s, a) == CancelAll(P, s, Mine(s, a))
+
+Keep(s, a, r) == [s EXCEPT !.hnd[a] = Append(@, [c |-> s.cur[a], r |-> r, seen |-> FALSE])]
+\* Once an actor has observed the completion of one of its handles (wait returned, test said true), the s4u object is
+\* FINISHED and a later test() on it returns true at once without any simcall (Activity::wait_for always does a simcall).
+OnHandle(op) == op.op \in {"wait", "waitfor", "test"}
+IsLocal(P, s, a) == LET op == Cur(P, s, a) IN op.op = "test" /\ op.o <= Len(s.hnd[a]) /\ s.hnd[a][op.o].seen
+LocalRet(P, s, a) == LET op == Cur(P, s, a)  h == s.hnd[a][op.o] IN
+                     AnswerV(s, a, IF op.op = "test" THEN "true" ELSE "ok", IF h.r THEN s.act[h.c].pay ELSE 0)       \* an asynchronous operation returns a handle
+
+\* number of simcalls of an operation (run granularity): blocking put / get / exec = start + wait
+NSub(op) == IF op.op \in {"put", "get", "mput", "mget", "exec"} THEN 2 ELSE 1
 
 \* ------------------------------------------------------------------ the kernel effect of a simcall
 \* Pre: s.ph[a] \in {"run","issued"} and s.pc[a] <= NOps(P,a) and ~s.aborted
@@ -117,18 +229,49 @@ Handle(P, s, a) ==
          ELSE Answer(AnswerAll([s EXCEPT !.bq[o] = <<>>, !.bgen[o] = @ + 1], s.bq[o], "ok"), a, "ok")
     [] k = "sleep" -> Block([s EXCEPT !.tmr[a] = s.now + op.t], a, "sleep", 0, 0)
     [] k = "yield" -> Answer(s, a, "ok")
+    \* ---- mailboxes (o = mailbox, t = size)
+    [] k = "put"  -> IF s.sub[a] = 1 THEN Answer(Isend(P, s, a, o, op.t, FALSE), a, "ok") ELSE WaitAct(P, s, a, s.cur[a], -1, FALSE)
+    [] k = "get"  -> IF s.sub[a] = 1 THEN Answer(Irecv(P, s, a, o), a, "ok") ELSE WaitAct(P, s, a, s.cur[a], -1, TRUE)
+    [] k = "puta" -> Answer(Keep(Isend(P, s, a, o, op.t, FALSE), a, FALSE), a, "ok")
+    [] k = "putd" -> Answer(Isend(P, s, a, o, op.t, TRUE), a, "ok")
+    [] k = "geta" -> Answer(Keep(Irecv(P, s, a, o), a, TRUE), a, "ok")
+    \* ---- message queues (o = queue)
+    [] k = "mput"  -> IF s.sub[a] = 1 THEN Answer(Iput(P, s, a, o), a, "ok") ELSE WaitAct(P, s, a, s.cur[a], -1, FALSE)
+    [] k = "mget"  -> IF s.sub[a] = 1 THEN Answer(Iget(P, s, a, o), a, "ok") ELSE WaitAct(P, s, a, s.cur[a], -1, TRUE)
+    [] k = "mputa" -> Answer(Keep(Iput(P, s, a, o), a, FALSE), a, "ok")
+    [] k = "mgeta" -> Answer(Keep(Iget(P, s, a, o), a, TRUE), a, "ok")
+    \* ---- executions (t = duration on the actor's own, otherwise idle, host)
+    [] k = "exec"  -> IF s.sub[a] = 1
+                      THEN Answer([s EXCEPT !.act = Append(@, NewAct("exec", 0, a, 0, 0, op.t, "run", FALSE, s.now + op.t)),
+                                            !.cur[a] = Len(s.act) + 1], a, "ok")
+                      ELSE WaitAct(P, s, a, s.cur[a], -1, FALSE)
+    [] k = "execa" -> Answer(Keep([s EXCEPT !.act = Append(@, NewAct("exec", 0, a, 0, 0, op.t, "run", FALSE, s.now + op.t)),
+                                            !.cur[a] = Len(s.act) + 1], a, FALSE), a, "ok")
+    \* ---- handles (o = index of the handle among the asynchronous operations of the actor; t = timeout)
+    [] OnHandle(op) /\ IsLocal(P, s, a) -> LocalRet(P, s, a)
+    [] k = "wait"    -> IF o > Len(s.hnd[a]) THEN Abort(s, a) ELSE WaitAct(P, s, a, s.hnd[a][o].c, -1, s.hnd[a][o].r)
+    [] k = "waitfor" -> IF o > Len(s.hnd[a]) THEN Abort(s, a) ELSE WaitAct(P, s, a, s.hnd[a][o].c, op.t, s.hnd[a][o].r)
+    [] k = "test"    -> IF o > Len(s.hnd[a]) THEN Abort(s, a)
+                        ELSE LET c == s.hnd[a][o].c IN
+                             IF s.act[c].st = "done" THEN AnswerV(s, a, "true", IF s.hnd[a][o].r THEN s.act[c].pay ELSE 0)
+                             ELSE Answer(s, a, "false")
     [] OTHER -> Abort(s, a)
 
 \* ------------------------------------------------------------------ time
 Ready(s, a)     == s.ph[a] \in {"run", "issued", "answered"}
 SomeReady(P, s) == \E a \in Actors(P) : Ready(s, a)
+Running(s)     == { c \in 1..Len(s.act) : s.act[c].st = "run" }
 TimerDates(P, s) == { s.tmr[a] : a \in { b \in Actors(P) : s.tmr[b] >= 0 } }
+                    \cup { s.act[c].fin : c \in { x \in Running(s) : s.act[x].fin >= 0 } }
+FreeRunning(s) == { c \in Running(s) : s.act[c].fin < 0 }        \* running activities whose completion date is free
+CanComplete(s, c) == c \in Running(s) /\ (s.act[c].fin < 0 \/ s.act[c].fin <= s.now)
 MinDate(S) == CHOOSE d \in S : \A e \in S : d <= e
 Due(s, a)  == s.tmr[a] >= 0 /\ s.tmr[a] <= s.now
 
 \* the clock jumps to the earliest pending date, only when no actor can run and nothing is due
-CanAdvance(P, s) == ~s.aborted /\ ~SomeReady(P, s) /\ TimerDates(P, s) # {} /\ \A d \in TimerDates(P, s) : d > s.now
-Advance(P, s)    == [s EXCEPT !.now = MinDate(TimerDates(P, s))]
+CanAdvance(P, s) == ~s.aborted /\ ~SomeReady(P, s) /\ (TimerDates(P, s) # {} \/ FreeRunning(s) # {})
+                    /\ \A d \in TimerDates(P, s) : d > s.now
+Advance(P, s)    == IF TimerDates(P, s) = {} THEN s ELSE [s EXCEPT !.now = MinDate(TimerDates(P, s))]
 
 \* completion of the sleep / timeout of actor a (pre: Due(s, a) /\ s.ph[a] = "blocked")
 FireTimer(P, s, a) ==
@@ -136,7 +279,13 @@ FireTimer(P, s, a) ==
   CASE b.kind = "sleep" -> Answer(s, a, "ok")
     [] b.kind = "sem"   -> Answer([s EXCEPT !.sq[b.o] = RemoveFirst(@, a)], a, "timeout")
     [] b.kind = "cv"    -> LockFor(P, [s EXCEPT !.cq[b.o] = RemoveFirst(@, [a |-> a, m |-> b.m]), !.tmr[a] = -1], a, b.m, "timeout")
+    [] b.kind = "act"   -> Answer(s, a, "timeout_exc")        \* wait_for: TimeoutException; the activity goes on
     [] OTHER -> s
+\* C12: a completion at the deadline counts as completed: the timeout of a wait_for may fire only if the activity is
+\* not due to complete by now (free completion dates leave the tie open)
+CanFire(s, a) == /\ s.ph[a] = "blocked" /\ Due(s, a)
+                 /\ (s.blk[a].kind = "act" => ~(s.act[s.blk[a].o].st = "run" /\ s.act[s.blk[a].o].fin >= 0
+                                                /\ s.act[s.blk[a].o].fin <= s.now))
 
 \* the actor observes the answer and goes on (pre: s.ph[a] = "answered").  A failed "trylock?" (p = 1) skips the next
 \* operation of the actor (its matching unlock); obs gets a "skip" entry so that obs stays aligned with the program.
@@ -144,11 +293,19 @@ Ret(P, s, a) ==
   LET op   == Cur(P, s, a)
       skip == op.op = "trylock" /\ op.p = 1 /\ s.res[a] = "false" /\ s.pc[a] + 1 <= NOps(P, a)
       npc  == s.pc[a] + (IF skip THEN 2 ELSE 1) IN
-  [s EXCEPT !.obs[a] = Append(@, s.res[a]) \o (IF skip THEN <<"skip">> ELSE <<>>), !.res[a] = "none", !.pc[a] = npc,
-            !.ph[a] = IF npc > NOps(P, a) THEN "done" ELSE "run"]
+  LET sees == OnHandle(op) /\ s.res[a] \in {"ok", "true"} /\ op.o <= Len(s.hnd[a])
+      n == [s EXCEPT !.obs[a] = Append(@, s.res[a]) \o (IF skip THEN <<"skip">> ELSE <<>>),
+                     !.hnd[a] = IF sees THEN [@ EXCEPT ![op.o].seen = TRUE] ELSE @,
+                     !.ov[a] = Append(@, s.rval[a]) \o (IF skip THEN <<0>> ELSE <<>>),
+                     !.res[a] = "none", !.rval[a] = 0, !.pc[a] = npc, !.sub[a] = 1, !.cur[a] = 0,
+                     !.ph[a] = IF npc > NOps(P, a) THEN "done" ELSE "run"] IN
+  IF npc > NOps(P, a) THEN ExitCleanup(P, n, a) ELSE n
+\* an answered simcall that is not the last one of its operation: the actor goes on with the next simcall
+MoreSub(P, s, a) == s.ph[a] = "answered" /\ s.res[a] = "ok" /\ s.sub[a] < NSub(Cur(P, s, a))
+NextSub(P, s, a) == [s EXCEPT !.sub[a] = @ + 1, !.res[a] = "none", !.rval[a] = 0, !.ph[a] = "run"]
 
 \* EngineImpl::run reports a deadlock when nothing can happen any more and some actor is not finished
-Terminal(P, s)   == ~SomeReady(P, s) /\ TimerDates(P, s) = {}
+Terminal(P, s)   == ~SomeReady(P, s) /\ TimerDates(P, s) = {} /\ Running(s) = {}
 Deadlocked(P, s) == ~s.aborted /\ Terminal(P, s) /\ \E a \in Actors(P) : s.ph[a] = "blocked"
 AllDone(P, s)    == \A a \in Actors(P) : s.ph[a] \in {"done", "dead"}
 
@@ -204,13 +361,26 @@ PhaseConsistency(P, s) ==
   \A a \in Actors(P) :
      /\ (s.ph[a] = "blocked") = (s.blk[a].kind # "none")
      /\ (s.ph[a] = "answered") = (s.res[a] # "none")
-     /\ (s.tmr[a] >= 0 => s.ph[a] = "blocked" /\ s.blk[a].kind \in {"sleep", "sem", "cv"})
+     /\ (s.tmr[a] >= 0 => s.ph[a] = "blocked" /\ s.blk[a].kind \in {"sleep", "sem", "cv", "act"})
      /\ s.tmr[a] # -1 => s.tmr[a] >= s.now          \* C03: no pending date in the past
 
+\* C08 / C09: every payload is received at most once, only payloads that were sent are received, a queued entry is
+\* unmatched, and nobody waits on a finished activity
+ReceivedPayloads(P, s) == UNION { { <<a, i>> : i \in { j \in 1..Len(s.ov[a]) : s.ov[a][j] # 0 } } : a \in Actors(P) }
+CommExactlyOnce(P, s) ==
+  /\ \A x, y \in ReceivedPayloads(P, s) : s.ov[x[1]][x[2]] = s.ov[y[1]][y[2]] => x[1] = y[1]   \* never to two actors
+  /\ \A c, d \in 1..Len(s.act) : (c # d /\ s.act[c].pay # 0) => s.act[c].pay # s.act[d].pay       \* one put, one communication
+  /\ \A x \in ReceivedPayloads(P, s) : \E c \in 1..Len(s.act) : s.act[c].pay = s.ov[x[1]][x[2]] /\ s.act[c].st = "done"
+                                                            /\ s.act[c].dst = x[1]
+  /\ \A b \in Mboxes(P) : \A i \in 1..Len(s.mbq[b]) : s.act[s.mbq[b][i]].st = "wait"
+  /\ \A b \in Mboxes(P) : ~(\E i, j \in 1..Len(s.mbq[b]) : IsSend(s.act[s.mbq[b][i]]) /\ IsRecv(s.act[s.mbq[b][j]]))
+  /\ \A q \in Mqs(P) : ~(\E i, j \in 1..Len(s.mqq[q]) : IsSend(s.act[s.mqq[q][i]]) /\ IsRecv(s.act[s.mqq[q][j]]))
+  /\ \A a \in Actors(P) : (s.ph[a] = "blocked" /\ s.blk[a].kind = "act") => s.act[s.blk[a].o].st \in {"wait", "run"}
+
 KernelInv(P, s) == /\ MutexOwnership(P, s) /\ MutexExclusion(P, s) /\ SemConservation(P, s)
-                   /\ CvConsistency(P, s) /\ BarrierGroups(P, s) /\ PhaseConsistency(P, s)
+                   /\ CvConsistency(P, s) /\ BarrierGroups(P, s) /\ PhaseConsistency(P, s) /\ CommExactlyOnce(P, s)
 
 \* what an execution leaves behind (C14 / C38: set of terminal outcomes)
-Outcome(P, s) == [ obs |-> s.obs, ph |-> s.ph, blk |-> [a \in Actors(P) |-> s.blk[a].kind],
+Outcome(P, s) == [ obs |-> s.obs, ov |-> s.ov, ph |-> s.ph, blk |-> [a \in Actors(P) |-> s.blk[a].kind],
                    end |-> IF s.undef THEN "undefined" ELSE IF s.aborted THEN "abort" ELSE IF Deadlocked(P, s) THEN "deadlock" ELSE "normal" ]
 =============================================================================
